@@ -306,6 +306,46 @@ def run_case(ctx, i, rng):
             if e:
                 ctx.violation("href-root:instances", "%s | %s" % (e, st))
                 return
+    # ... several reference roots at once, one of them lying directly below another, without recursion: the direct children of
+    #     each root, whatever the order of the roots in the collection
+    by_seq = {ids(seq(h)): h for h in hinsts}
+    pairs = []
+    for h in hinsts:
+        s = ids(seq(h))
+        if len(s) >= 2 and s[:-1] in by_seq and any(len(k) == len(s) + 1 and k[:len(s)] == s for k in want["instances"]):
+            pairs.append((by_seq[s[:-1]], h))
+    for hp, hc in pick(pairs, 4):
+        sp, sc = ids(seq(hp)), ids(seq(hc))
+        w = collections.Counter({k: 1 for k in want["instances"]
+                                 if (len(k) == len(sp) + 1 and k[:len(sp)] == sp) or (len(k) == len(sc) + 1 and k[:len(sc)] == sc)})
+        for roots, tag in (([hp, hc], "parent first"), ([hc, hp], "child first")):
+            ctx.count("element_root_queries")
+            ctx.count("nested_href_root_queries")
+            e = cmp(ctx, "get_hinstances([two references, one directly below the other; %s], recursive=False)" % tag,
+                    list(sdn.get_hinstances(roots, recursive=False)), w)
+            if e:
+                ctx.violation("href-roots-nested:instances", "%s | %s" % (e, st))
+                return
+    # ... an instance PIN (outer pin) as the root: the occurrences of its inner pin / port below every occurrence of its instance
+    for d in pick(defs, 6):
+        for x in pick(d.children, 2):
+            if x.reference is None:
+                continue
+            for op in pick(list(x.pins), 2):
+                ip = op.inner_pin
+                if ip is None or ip.port is None:
+                    continue
+                wpin, wport = collections.Counter(), collections.Counter()
+                for sq in occ["instances"]:
+                    if sq[-1] is x:
+                        wpin[ids(sq + (ip.port, ip))] = 1
+                        wport[ids(sq + (ip.port,))] = 1
+                ctx.count("element_root_queries", 2)
+                ctx.count("outer_pin_root_queries", 2)
+                e = cmp(ctx, "get_hpins(outer pin)", list(sdn.get_hpins(op)), wpin) or cmp(ctx, "get_hports(outer pin)", list(sdn.get_hports(op)), wport)
+                if e:
+                    ctx.violation("element-root:outer-pin", "%s | %s" % (e, st))
+                    return
     # D. breaking edits
     sample = held if len(held) <= 150 else rng.sample(held, 150)
     seqs = [seq(h) for h in sample]
